@@ -114,7 +114,15 @@ def form_lines(st):
     if f == 'defclass':
         return _L("class SimDocErr(Exception):", "    pass")
     if f == 'comment':
-        return _L("# comment %d" % i)
+        return _L("# comment %d%s" % (i, ' caf\u00e9' if st.get('nonascii') else ''))
+    if f == 'modsay':
+        # calls module code that writes to the stream the module bound at import time
+        return _L("modsay('%s')" % p[0])
+    if f == 'tqdirective':
+        # a string literal with a line that *starts* like a directive comment
+        return [("sim_td%d = str(S.op('%s')) + '''" % (i, p[0]), True),
+                ("# xdoctest: +SKIP", False),
+                ("'''", True)]
     if f == 'blankprompt':
         # one or two prompt lines with nothing after them
         return _L(*([''] * st.get('n', 1)))
@@ -241,7 +249,7 @@ def form_out(st):
     return []
 
 
-EXPR_FORMS = {'expr', 'print', 'emit', 'emitnoeol', 'coroexpr', 'reprexpr', 'sayval', 'say', 'multiline', 'semiemit', 'tqprint', 'callhelper_expr', 'callhelper_emit',
+EXPR_FORMS = {'expr', 'print', 'emit', 'emitnoeol', 'coroexpr', 'reprexpr', 'sayval', 'modsay', 'say', 'multiline', 'semiemit', 'tqprint', 'callhelper_expr', 'callhelper_emit',
               'callmod_expr', 'awaitexpr', 'awaitprint', 'names', 'emitop'}
 VALUE_FORMS = {'expr': 0, 'multiline': 0, 'callhelper_expr': 0, 'callmod_expr': 0, 'awaitexpr': 0, 'emitop': 0, 'reprexpr': 0}
 NOCODE_FORMS = {'comment', 'directive', 'blankprompt'}
@@ -268,6 +276,8 @@ def exc_last_line(exc):
     """text of the final 'Type: message' line for a nominal exception spec."""
     name = exc['exc']
     msg = exc.get('msg')
+    if name == 'Group1':
+        return 'ExceptionGroup: %s (1 sub-exception)' % (msg or 'grp')
     if name.startswith('mod:'):
         shown = name[4:]
     elif name.startswith('doc:'):
@@ -319,6 +329,9 @@ def want_lines_for(st, window_nominal):
             head, sep, tail = last.partition(': ')
             word = tail.split()[-1] if tail.split() else 'x'
             lines = [TB_HEADER, '    ...', head + sep + tail.split()[0] + '...' + word + '...' + word]
+        elif w == 'tbmember':
+            # names the single member of the group instead of the group that is raised
+            lines = [TB_HEADER, '    ...', 'ValueError: member of ' + (st['exc'].get('msg') or 'grp')]
         elif w == 'tbinner':
             # describes the exception that was being handled (the context), not the one raised
             lines = [TB_HEADER, '    ...', inner_last_line(st)]
@@ -454,8 +467,9 @@ def render_doctest(dt, indent, out, lineno0, env=None, defaults=None):
         want_line = None
         if wl:
             want_line = lineno0 + len(out)
+            wpad = pad + ' ' * st.get('want_indent', 0)
             for w in wl:
-                out.append(pad + w)
+                out.append(wpad + w)
             if st_runs:
                 window = []
         else:
@@ -525,6 +539,13 @@ def simshadow():
 
 def modhelper1(pid):
     return S.op(pid)
+
+
+SIM_IMPORT_STDOUT = sys.stdout
+
+
+def modsay(pid, out=sys.stdout):
+    S.writeto(out, pid)
 
 
 def modhelper2(pid):
